@@ -317,6 +317,19 @@ GenFamily == {GenItem(GenSeq[i][1], GenSeq[i][2], GenSeq[i][3], GenSeq[i][4], "G
         \cup GenIfaceFamily \cup GenRepeats
 
 
+(* markers forwarded from the handlers of *generic* messages (an interface whose associated type the handlers use, a generic contract): *)
+(* such message types carry a hidden variant for their parameters, which no handler designates                                       *)
+FwGenSite(k, name) == [site |-> "variant", kind |-> k, method |-> name, param |-> "", m |-> A("", "")]
+FwGenItem(mac, id) ==
+    LET base == IF mac = "interface" THEN GenIfaceItem(SelfTy(TP(1)), SelfTy(TP(1)), SelfTy(TP(1)), TyNone, 0, id)
+                ELSE GenItem(TyDirect(TP(1)), TyDirect(TP(1)), TyDirect(TP(1)), TyNone, id)
+        s1 == FwGenSite("exec", "foo")
+        s2 == FwGenSite("query", "ask")
+    IN [base EXCEPT !.family = "fw",
+                    !.members = WithForward(WithForward(@, s1, Marker(1)), s2, Marker(2)),
+                    !.forwards = <<[s1 EXCEPT !.m = Marker(1)], [s2 EXCEPT !.m = Marker(2)]>>]
+FwGen == {FwGenItem("interface", "FGi"), FwGenItem("contract", "FGc")}
+
 (* ---------------------------------------------------------------- rule *)
 (* one rule-breaking edit per documented rule (C18), each on a valid host *)
 RuleHost == [BaseItem("host", "rule", "contract") EXCEPT
@@ -467,7 +480,7 @@ WithSites(it) == it @@ [sites |-> SitesOf(it.rule)]
 
 (* ---------------------------------------------------------------- model *)
 FwNoHandlers == {FwNoHandlerItem("contract", "FNc"), FwNoHandlerItem("interface", "FNi")}
-Items == TLCEval(SetToSeq({WithSites(it) : it \in EpFamily \cup PtFamily \cup FwFamily \cup FwSame \cup FwDerives \cup FwTriples \cup FwNoHandlers \cup GenFamily \cup RuleFamily}))
+Items == TLCEval(SetToSeq({WithSites(it) : it \in EpFamily \cup PtFamily \cup FwFamily \cup FwGen \cup FwSame \cup FwDerives \cup FwTriples \cup FwNoHandlers \cup GenFamily \cup RuleFamily}))
 
 VARIABLES item,      \* index into Items
           stage,     \* "source" | "expanded"
